@@ -34,6 +34,50 @@ Qed.
 (* the Vary field value of a header block, all field lines joined (what StoreResponse resolves against the request) *)
 Definition vary_of (h : headers) : bytes := join [44] (hvalues (bs "Vary") h).
 
+(* ---------- where a stored entry came from (C06 at history level) ---------- *)
+(* the request that went to the origin for a client request qc: qc itself, or qc with conditional fields *)
+Definition sent_for (qc q0 : request) : Prop := q0 = qc \/ exists h, q0 = with_conditional_headers qc h.
+(* StoreResponse writes the response without its hop-by-hop fields, and only when its body was read completely *)
+Definition stored_from (e : stored_entry) (r : response) : Prop :=
+  e_status e = p_status r /\ e_hdr e = remove_hop_by_hop (p_hdr r) /\ e_body e = p_body r /\ p_body_ok r = true.
+
+(* [Stor P e]: e is a full response that passed the storability test for the directives of a client request
+   with an understood method whose (possibly conditional) form was sent to the origin, or such an entry
+   freshened, any number of times, by a 304 where neither the request nor the 304 said no-store *)
+Inductive Stor (P : request -> Prop) : stored_entry -> Prop :=
+| Stor_full e r qc q0 :
+    P q0 -> sent_for qc q0 -> is_request_method_understood qc = true ->
+    p_status r <> 304 ->
+    can_store_response r (parse_cc (q_hdr qc)) (parse_cc (p_hdr r)) = true ->
+    stored_from e r -> Stor P e
+| Stor_fresh e e0 r304 qc q0 :
+    Stor P e0 -> P q0 -> sent_for qc q0 -> is_request_method_understood qc = true ->
+    p_status r304 = 304 ->
+    req_no_store (parse_cc (q_hdr qc)) = false -> resp_no_store (parse_cc (p_hdr r304)) = false ->
+    stored_from e (response_of (entry_with_hdr e0 (update_stored_headers (e_hdr e0) (p_hdr r304)))) ->
+    Stor P e.
+
+Lemma Stor_mono (P P' : request -> Prop) e : (forall q, P q -> P' q) -> Stor P e -> Stor P' e.
+Proof.
+  intros H S. induction S as [e r qc q0 Hp Hs Hu Hn Hc Hf|e e0 r304 qc q0 _ IH Hp Hs Hu H3 Hn1 Hn2 Hf].
+  - eapply Stor_full; eauto.
+  - eapply Stor_fresh; eauto.
+Qed.
+
+(* status and body of a stored entry are those of a full response that passed the storability test *)
+Lemma Stor_origin P e : Stor P e ->
+  exists r qc q0, P q0 /\ sent_for qc q0 /\ is_request_method_understood qc = true /\ p_status r <> 304 /\
+    can_store_response r (parse_cc (q_hdr qc)) (parse_cc (p_hdr r)) = true /\ p_body_ok r = true /\
+    e_status e = p_status r /\ e_body e = p_body r.
+Proof.
+  intros S. induction S as [e r qc q0 Hp Hs Hu Hn Hc (Hst & _ & Hb & Hok)|e e0 r304 qc q0 _ IH _ _ _ _ _ _ (Hst & _ & Hb & _)].
+  - exists r, qc, q0. split; [exact Hp|split; [exact Hs|split; [exact Hu|split; [exact Hn|split; [exact Hc|split; [exact Hok|split; assumption]]]]]].
+  - destruct IH as (r & qc' & q0' & Hp & Hs & Hu & Hn & Hc & Hok & Hst0 & Hb0).
+    exists r, qc', q0'. split; [exact Hp|split; [exact Hs|split; [exact Hu|split; [exact Hn|split; [exact Hc|split; [exact Hok|split]]]]]].
+    + rewrite Hst. cbn. exact Hst0.
+    + rewrite Hb. cbn. exact Hb0.
+Qed.
+
 Section Safe.
   Variable G : bytes -> Z -> Prop.      (* [G u b]: the body token b belongs to the resource with URL key u *)
   Variable P : request -> Prop.         (* [P q0]: the request q0 was sent to the origin *)
@@ -48,7 +92,7 @@ Section Safe.
   Definition stored_for (e : stored_entry) : Prop :=
     exists q0 m, P q0 /\ make_url_key (q_url q0) = u /\
                  normalize_vary (vary_of (e_hdr e)) (q_hdr q0) = Some m /\ e_id e = make_vary_key u m.
-  Definition entry_ok (k : bytes) (e : stored_entry) : Prop := e_id e = k /\ G u (e_body e) /\ stored_for e.
+  Definition entry_ok (k : bytes) (e : stored_entry) : Prop := e_id e = k /\ G u (e_body e) /\ stored_for e /\ Stor P e.
 
   Lemma ref_ok_variant r : ref_ok r -> variant_of (r_id r).
   Proof. intros H. exists (r_resolved r). exact H. Qed.
@@ -143,10 +187,11 @@ Section Tree.
   (* StoreResponse for a request that was sent to the origin *)
   Lemma store_response_safe u q r refs a b i :
     P q -> make_url_key (q_url q) = u ->
+    (forall e, stored_from e r -> Stor P e) ->
     G u (p_body r) -> refs_ok u refs ->
     Safe G P u (fun r1 => G u (p_body r1)) (store_response q r u refs a b i).
   Proof.
-    intros Hp Hu Hg Hr. unfold store_response.
+    intros Hp Hu Hstor Hg Hr. unfold store_response.
     destruct (normalize_vary _ _) as [m|] eqn:En; [|constructor].
     set (id := make_vary_key u m).
     assert (Hrefs : refs_ok u (unique_refs
@@ -158,9 +203,11 @@ Section Tree.
     { apply unique_refs_ok. intros x Hx. destruct ((i <? 0) || _).
       - apply in_app_or in Hx as [Hx|[Hx|[]]]; [apply Hr, Hx|]. injection Hx as E. rewrite <- E. reflexivity.
       - apply replace_nth_in in Hx as [Hx|Hx]; [injection Hx as E; rewrite E; reflexivity|apply Hr, Hx]. }
-    cbn [p_body_ok with_hdr]. destruct (p_body_ok r).
+    cbn [p_body_ok with_hdr]. destruct (p_body_ok r) eqn:Hok.
     - apply SF_SetEntry; [exists m; reflexivity| |].
-      + split; [reflexivity|split; [exact Hg|]]. exists q, m. split; [exact Hp|split; [exact Hu|split; [exact En|reflexivity]]].
+      + split; [reflexivity|split; [exact Hg|split]].
+        * exists q, m. split; [exact Hp|split; [exact Hu|split; [exact En|reflexivity]]].
+        * apply Hstor. repeat split; try reflexivity. exact Hok.
       + apply SF_SetRefs; [reflexivity|exact Hrefs|]. constructor. exact Hg.
     - apply SF_SetRefs; [reflexivity|exact Hrefs|]. constructor. cbn. apply G_nobody.
   Qed.
@@ -190,20 +237,24 @@ Section Tree.
 
   (* the validation response handler, given a stored entry and references the store invariant vouches for,
      and a (conditional) request that was sent to the origin *)
-  Lemma hvr_safe u ctx q rep :
+  Lemma hvr_safe u ctx q qc rep :
     P q -> make_url_key (q_url q) = u ->
+    sent_for qc q -> is_request_method_understood qc = true -> rc_cc_req ctx = parse_cc (q_hdr qc) ->
+    Stor P (rc_stored ctx) ->
     rc_url_key ctx = u -> G u (e_body (rc_stored ctx)) -> refs_ok u (rc_refs ctx) ->
     (forall r, rep = RResp r -> G u (p_body r)) ->
     Safe G P u (leaf_ok G u) (handle_validation_response ctx q rep).
   Proof.
-    intros Hp Hq Hu Hst Hrefs Hrep. unfold handle_validation_response. rewrite Hu.
+    intros Hp Hq Hsent Hund Hcc Hstor Hu Hst Hrefs Hrep. unfold handle_validation_response. rewrite Hu.
     destruct rep as [|r].
     - cbn [andb]. match goal with |- Safe _ _ _ _ (if ?c then _ else _) => destruct c end; [|constructor; exact I].
       constructor. intros now. destruct (can_stale_on_error _ _ _); constructor; [exact Hst|exact I].
     - specialize (Hrep r eq_refl).
-      destruct (is_get (q_method q) && (p_status r =? 304)).
-      + destruct (_ || _); [constructor; exact Hst|].
-        eapply Safe_bind; [apply store_response_safe; [exact Hp|exact Hq|exact Hst|exact Hrefs]|]. intros r1 Hr1. constructor. exact Hr1.
+      destruct (is_get (q_method q) && (p_status r =? 304)) eqn:E304.
+      + destruct (req_no_store (rc_cc_req ctx) || resp_no_store (parse_cc (p_hdr r))) eqn:Ens; [constructor; exact Hst|].
+        eapply Safe_bind; [apply store_response_safe; [exact Hp|exact Hq| |exact Hst|exact Hrefs]|intros r1 Hr1; constructor; exact Hr1].
+        intros e He. apply Bool.orb_false_iff in Ens as [Ens1 Ens2]. apply Bool.andb_true_iff in E304 as [_ E304].
+        eapply Stor_fresh; [exact Hstor|exact Hp|exact Hsent|exact Hund|apply Z.eqb_eq, E304|rewrite <- Hcc; exact Ens1|exact Ens2|exact He].
       + assert (Hafter : Safe G P u (leaf_ok G u)
           (let cc_resp := parse_cc (p_hdr r) in
            if can_store_response r (rc_cc_req ctx) cc_resp
@@ -213,9 +264,14 @@ Section Tree.
                 then invalidate_cache (q_url q) (p_hdr r) (rc_refs ctx) u
                        (Ret (OResp (with_hdr r (apply_status BYPASS (p_hdr r)))))
                 else Ret (OResp (with_hdr r (apply_status BYPASS (p_hdr r)))))).
-        { cbv zeta. destruct (can_store_response _ _ _).
-          - eapply Safe_bind; [apply store_response_safe; [exact Hp|exact Hq|exact Hrep|exact Hrefs]|]. intros r1 Hr1. constructor. exact Hr1.
-          - destruct (_ && _); [apply invalidate_cache_safe|]; constructor; exact Hrep. }
+        { cbv zeta. destruct (can_store_response _ _ _) eqn:Ecs.
+          - eapply Safe_bind; [apply store_response_safe; [exact Hp|exact Hq| |exact Hrep|exact Hrefs]|intros r1 Hr1; constructor; exact Hr1].
+            intros e He. eapply Stor_full; [exact Hp|exact Hsent|exact Hund| |rewrite <- Hcc; exact Ecs|exact He].
+            intros E3. assert (Hget : is_get (q_method q) = true).
+            { unfold is_request_method_understood in Hund. apply Bool.andb_true_iff in Hund as [Hund _].
+              destruct Hsent as [->|[h ->]]; exact Hund. }
+            rewrite Hget, E3 in E304. discriminate.
+          - destruct (is_unsafe_method (q_method q) && is_non_error_status (p_status r)); [apply invalidate_cache_safe|]; constructor; exact Hrep. }
         match goal with |- Safe _ _ _ _ (if ?c then _ else _) => destruct c end; [|exact Hafter].
         constructor. intros now. destruct (can_stale_on_error _ _ _); [constructor; exact Hst|exact Hafter].
   Qed.
@@ -237,41 +293,48 @@ Section Tree2.
     - intros r0 E. injection E as <-. cbn [with_hdr p_body]. apply Hrep. reflexivity.
   Qed.
 
-  Lemma miss_safe u q refs i : make_url_key (q_url q) = u -> refs_ok u refs ->
+  Lemma miss_safe u q refs i : make_url_key (q_url q) = u -> is_request_method_understood q = true -> refs_ok u refs ->
     Safe G P u (leaf_ok G u) (handle_cache_miss q u refs i).
   Proof.
-    intros Hu Hr. unfold handle_cache_miss. destruct (req_only_if_cached _); [constructor; cbn; apply G_nobody|].
+    intros Hu Hund Hr. unfold handle_cache_miss. destruct (req_only_if_cached _); [constructor; cbn; apply G_nobody|].
     apply rtt_safe; [exact Hu|]. intros [|r] a b Hp Hrep; [constructor; exact I|]. cbv zeta.
     specialize (Hrep r eq_refl).
-    destruct (_ && _); [|constructor; exact Hrep].
-    eapply Safe_bind; [apply store_response_safe; [exact G_nobody|exact Hp|exact Hu|exact Hrep|exact Hr]|]. intros r1 H1. constructor. exact H1.
+    destruct (negb (p_status r =? 304) && can_store_response r (parse_cc (q_hdr q)) (parse_cc (p_hdr r))) eqn:Ecs; [|constructor; exact Hrep].
+    eapply Safe_bind; [apply store_response_safe; [exact G_nobody|exact Hp|exact Hu| |exact Hrep|exact Hr]|intros r1 H1; constructor; exact H1].
+    intros e He. apply Bool.andb_true_iff in Ecs as [En Ecs].
+    eapply Stor_full; [exact Hp|left; reflexivity|exact Hund| |exact Ecs|exact He].
+    intros E3. rewrite E3 in En. discriminate.
   Qed.
 
-  Lemma bg_safe u q stored f cc : make_url_key (q_url q) = u -> variant_of u (e_id stored) ->
+  Lemma bg_safe u q qc stored f cc : make_url_key (q_url q) = u -> variant_of u (e_id stored) ->
+    sent_for qc q -> is_request_method_understood qc = true -> cc = parse_cc (q_hdr qc) ->
     Safe G P u (fun _ => True) (background_revalidate q stored u f cc).
   Proof.
-    intros Hu Hv. unfold background_revalidate. apply rtt_safe; [exact Hu|].
+    intros Hu Hv Hsent Hund Hcc. unfold background_revalidate. apply rtt_safe; [exact Hu|].
     intros [|r] a b Hp Hrep; [constructor; exact I|].
     apply SF_GetEntry; [exact Hv|]. intros own Hown. destruct own as [own|]; [|constructor; exact I].
-    destruct (Hown own eq_refl) as (_ & Hbody & _).
+    destruct (Hown own eq_refl) as (_ & Hbody & _ & Hstor).
     destruct (_ && _); [constructor; exact I|].
     unfold get_refs_clean. constructor. intros ans Hans.
     eapply Safe_bind; [|intros; constructor; exact I].
-    apply hvr_safe; cbn [rc_url_key rc_stored rc_refs]; auto.
+    apply hvr_safe with (qc := qc); cbn [rc_url_key rc_stored rc_refs rc_cc_req]; auto.
     destruct ans as [l|]; cbn [option_map]; [|intros x []].
     apply refs_ok_drop. apply Hans; reflexivity.
   Qed.
 
-  Lemma hit_safe u q stored refs i : make_url_key (q_url q) = u -> entry_ok G P u (e_id stored) stored ->
+  Lemma hit_safe u q stored refs i : make_url_key (q_url q) = u -> is_request_method_understood q = true ->
+    entry_ok G P u (e_id stored) stored ->
     variant_of u (e_id stored) -> refs_ok u refs ->
     Safe G P u (leaf_ok G u) (handle_cache_hit q stored u refs i).
   Proof.
-    intros Hu (_ & Hbody & _) Hv Hr. unfold handle_cache_hit. constructor. intros now. cbv zeta.
+    intros Hu Hund (_ & Hbody & _ & Hstor) Hv Hr. unfold handle_cache_hit. constructor. intros now. cbv zeta.
     destruct (decide_hit q stored now).
     - constructor. unfold serve_from_cache. cbn. exact Hbody.
-    - unfold handle_stale_while_revalidate. apply SF_Spawn; [apply bg_safe; [exact Hu|exact Hv]|]. constructor. cbn. exact Hbody.
+    - unfold handle_stale_while_revalidate.
+      apply SF_Spawn; [apply bg_safe with (qc := q); [exact Hu|exact Hv|right; eexists; reflexivity|exact Hund|reflexivity]|]. constructor. cbn. exact Hbody.
     - constructor. cbn. apply G_nobody.
-    - apply rtt_safe; [exact Hu|]. intros rep a b Hp Hrep. apply hvr_safe; cbn [rc_url_key rc_stored rc_refs]; auto.
+    - apply rtt_safe; [exact Hu|]. intros rep a b Hp Hrep.
+      apply hvr_safe with (qc := q); cbn [rc_url_key rc_stored rc_refs rc_cc_req]; auto. right. eexists. reflexivity.
   Qed.
 
   Lemma strip_refs_in refs r : In r (strip_refs refs) -> In (Some r) refs.
@@ -282,28 +345,29 @@ Section Tree2.
 
   Theorem round_trip_safe q : Safe G P (make_url_key (q_url q)) (leaf_ok G (make_url_key (q_url q))) (round_trip q).
   Proof.
-    set (u := make_url_key (q_url q)). unfold round_trip. fold u. destruct (negb _).
+    set (u := make_url_key (q_url q)). unfold round_trip. fold u.
+    destruct (is_request_method_understood q) eqn:Hund; cbn [negb]; cycle 1.
     - unfold handle_unrecognized_method. apply SF_Origin; [reflexivity|]. intros [|r] _ Hrep; [constructor; exact I|].
       specialize (Hrep r eq_refl).
       assert (Hd : Safe G P u (leaf_ok G u) (Ret (OResp (with_hdr r (apply_status BYPASS (p_hdr r)))))) by (constructor; exact Hrep).
       destruct (_ && _); [|exact Hd]. unfold get_refs_clean. constructor. intros ans _. apply invalidate_cache_safe. exact Hd.
     - unfold get_refs_clean. constructor. intros ans Hans.
-      destruct ans as [l|]; cbn [option_map]; [|apply miss_safe; [reflexivity|intros x []]].
+      destruct ans as [l|]; cbn [option_map]; [|apply miss_safe; [reflexivity|exact Hund|intros x []]].
       assert (Hl : refs_ok u (drop_nil_refs l)) by (apply refs_ok_drop, Hans; reflexivity).
-      destruct (drop_nil_refs l) as [|x l'] eqn:El; [apply miss_safe; [reflexivity|intros y []]|].
+      destruct (drop_nil_refs l) as [|x l'] eqn:El; [apply miss_safe; [reflexivity|exact Hund|intros y []]|].
       destruct (has_nil_ref (x :: l')); [constructor|].
       destruct (vary_headers_match (strip_refs (x :: l')) (q_hdr q)) as [[sorted oi]|] eqn:Ev; [|constructor].
       assert (Hs : refs_ok u (map Some sorted)).
       { intros r Hr. apply in_map_iff in Hr as (r' & E & Hin). injection E as ->.
         unfold vary_headers_match in Ev. destruct (find_match _ _ _ _); [|discriminate]. injection Ev as <- _.
         unfold sort_refs in Hin. apply in_isort in Hin. apply Hl. apply strip_refs_in, Hin. }
-      destruct oi as [i|]; [|apply miss_safe; [reflexivity|exact Hs]].
+      destruct oi as [i|]; [|apply miss_safe; [reflexivity|exact Hund|exact Hs]].
       destruct (nth_error sorted (Z.to_nat i)) as [r|] eqn:En; [|constructor].
       assert (Hv : variant_of u (r_id r)).
       { apply ref_ok_variant. apply Hs. apply in_map. eapply nth_error_In. exact En. }
-      apply SF_GetEntry; [exact Hv|]. intros e He. destruct e as [stored|]; [|apply miss_safe; [reflexivity|exact Hs]].
-      destruct (He stored eq_refl) as (Hid & Hb & Hsf).
-      apply hit_safe; [reflexivity|split; [reflexivity|split; [exact Hb|exact Hsf]]|rewrite Hid; exact Hv|exact Hs].
+      apply SF_GetEntry; [exact Hv|]. intros e He. destruct e as [stored|]; [|apply miss_safe; [reflexivity|exact Hund|exact Hs]].
+      destruct (He stored eq_refl) as (Hid & Hb & Hsf & Hstor).
+      apply hit_safe; [reflexivity|exact Hund|split; [reflexivity|split; [exact Hb|split; [exact Hsf|exact Hstor]]]|rewrite Hid; exact Hv|exact Hs].
   Qed.
 End Tree2.
 
@@ -318,7 +382,7 @@ Definition Pl (L : list event) (q : request) : Prop := exists b a c rep, In (EvC
 
 Definition InvS (G : bytes -> Z -> Prop) (P : request -> Prop) (s : store) : Prop :=
   (forall k e, get_entry s k = Some e ->
-     e_id e = k /\ exists u m, k = make_vary_key u m /\ G u (e_body e) /\ stored_for P u e) /\
+     e_id e = k /\ Stor P e /\ exists u m, k = make_vary_key u m /\ G u (e_body e) /\ stored_for P u e) /\
   (forall u l, get_refs s u = Some l -> forall r, In (Some r) l -> r_id r = make_vary_key u (r_resolved r)).
 
 Lemma get_entry_aremove k k' s : get_entry (aremove k' s) k = if beq k k' then None else get_entry s k.
@@ -340,9 +404,9 @@ Proof. unfold get_entry. rewrite alookup_aset_same. reflexivity. Qed.
 
 Lemma InvS_set_entry G P s u k e : InvS G P s -> variant_of u k -> entry_ok G P u k e -> InvS G P (aset k (SEntry e) s).
 Proof.
-  intros [I1 I2] [m Hk] (Hid & Hb & Hsf). split.
+  intros [I1 I2] [m Hk] (Hid & Hb & Hsf & Hstor). split.
   - intros k' e' H. destruct (beq k' k) eqn:E.
-    + apply beq_eq in E. subst k'. rewrite get_entry_aset_same in H. injection H as <-. split; [exact Hid|]. exists u, m. auto.
+    + apply beq_eq in E. subst k'. rewrite get_entry_aset_same in H. injection H as <-. split; [exact Hid|split; [exact Hstor|]]. exists u, m. auto.
     + rewrite get_entry_aset_other in H by exact E. apply I1, H.
   - intros u' l H. destruct (beq u' k) eqn:E.
     + apply beq_eq in E. subst u'. rewrite get_refs_aset_entry in H. discriminate.
@@ -422,8 +486,8 @@ Proof.
   - refine (IH _ L u Lf limit _ res w' _ _ _ H Hincl); [|exact HI|exact HP]. apply HS.
     intros -> l Hl r Hr. destruct HI as [_ I2]. exact (I2 _ _ Hl r Hr).
   - destruct HS as [[m Hm] HS]. refine (IH _ L u Lf limit _ res w' _ _ _ H Hincl); [|exact HI|exact HP]. apply HS.
-    intros e0 He. destruct HI as [I1 _]. destruct (I1 _ _ He) as [Hid (u' & m' & Hk & Hg & Hsf)].
-    split; [exact Hid|]. rewrite Hm in Hk. apply vary_key_url_inj in Hk. subst u'. split; assumption.
+    intros e0 He. destruct HI as [I1 _]. destruct (I1 _ _ He) as (Hid & Hstor & u' & m' & Hk & Hg & Hsf).
+    split; [exact Hid|]. rewrite Hm in Hk. apply vary_key_url_inj in Hk. subst u'. repeat split; assumption.
   - destruct HS as (Hv & He & HS). refine (IH L u Lf limit _ res w' HS _ _ H Hincl); [|exact HP]. cbn. eapply InvS_set_entry; eassumption.
   - destruct HS as (-> & Hl & HS). refine (IH L u Lf limit _ res w' HS _ _ H Hincl); [|exact HP]. cbn. apply InvS_set_refs; assumption.
   - refine (IH L u Lf limit _ res w' HS _ _ H Hincl); [|exact HP]. cbn. apply InvS_del; assumption.
@@ -558,7 +622,7 @@ Lemma variant_provenance G P s u l r e :
     make_vary_key u m = make_vary_key u (r_resolved r).
 Proof.
   intros [I1 I2] Hl Hr He. pose proof (I2 u l Hl r Hr) as Hid.
-  destruct (I1 _ _ He) as [Heid (u' & m' & Hk & _ & (q0 & m & Hp & Hu & Hn & Hem))].
+  destruct (I1 _ _ He) as (Heid & _ & u' & m' & Hk & _ & (q0 & m & Hp & Hu & Hn & Hem)).
   assert (Eu : u' = u). { rewrite Hid in Hk. symmetry. eapply vary_key_url_inj. exact Hk. }
   rewrite Eu in *. exists q0, m. split; [exact Hp|split; [exact Hu|split; [exact Hn|]]].
   rewrite <- Hem, Heid. exact Hid.
@@ -621,8 +685,8 @@ Proof.
   destruct p; cbn [perform] in H; cbn [Safe_inv] in Hinv; try (injection H as <- <-; split; [exact HS|exact HI]).
   - injection H as <- <-. split; [|exact HI]. apply Hinv. intros -> l Hl r Hr. destruct HI as [_ I2]. exact (I2 _ _ Hl r Hr).
   - destruct Hinv as [[m Hm] Hinv]. injection H as <- <-. split; [|exact HI]. apply Hinv.
-    intros e0 He. destruct HI as [I1 _]. destruct (I1 _ _ He) as [Hid (u' & m' & Hk & Hg & Hsf)].
-    split; [exact Hid|]. rewrite Hm in Hk. apply vary_key_url_inj in Hk. subst u'. split; assumption.
+    intros e0 He. destruct HI as [I1 _]. destruct (I1 _ _ He) as (Hid & Hstor & u' & m' & Hk & Hg & Hsf).
+    split; [exact Hid|]. rewrite Hm in Hk. apply vary_key_url_inj in Hk. subst u'. repeat split; assumption.
   - destruct Hinv as (Hv & He & Hc). injection H as <- <-. split; [exact Hc|]. cbn. eapply InvS_set_entry; eassumption.
   - destruct Hinv as (-> & Hl & Hc). injection H as <- <-. split; [exact Hc|]. cbn. apply InvS_set_refs; assumption.
   - injection H as <- <-. split; [exact Hinv|]. cbn. apply InvS_del; assumption.
@@ -766,8 +830,9 @@ Lemma Pl_mono L L' q : incl L L' -> Pl L q -> Pl L' q.
 Proof. intros Hi (b & a & c & rep & Hin). exists b, a, c, rep. apply Hi, Hin. Qed.
 Lemma InvS_mono L L' s : incl L L' -> InvS (Gl L) (Pl L) s -> InvS (Gl L') (Pl L') s.
 Proof.
-  intros Hi [I1 I2]. split; [|exact I2]. intros k e He. destruct (I1 k e He) as [Hid (u & m & Hk & Hg & (q0 & m0 & Hp & Hrest))].
-  split; [exact Hid|]. exists u, m. split; [exact Hk|split; [eapply Gl_mono; eassumption|]]. exists q0, m0. split; [eapply Pl_mono; eassumption|exact Hrest].
+  intros Hi [I1 I2]. split; [|exact I2]. intros k e He. destruct (I1 k e He) as (Hid & Hstor & u & m & Hk & Hg & (q0 & m0 & Hp & Hrest)).
+  split; [exact Hid|split; [eapply Stor_mono; [|exact Hstor]; intros q Hq; eapply Pl_mono; eassumption|]].
+  exists u, m. split; [exact Hk|split; [eapply Gl_mono; eassumption|]]. exists q0, m0. split; [eapply Pl_mono; eassumption|exact Hrest].
 Qed.
 
 Theorem concurrent_provenance T qs w sched cw n H0 :
